@@ -66,6 +66,11 @@ add("C01", "Hypothesis-generated operator products; oracle: Fermi-vacuum expecta
     "is computed without Wick's theorem and compared with the evaluated wicks() result with and without delta evaluation on 4-5 model sizes; rules checked structurally against an independent block computation.",
     "Trusted: fock.py (anticommutation relations self-tested at every run), F_p evaluator. Strings with more than 6 distinct operator labels are not generated.")
 
+add("C15", "Hypothesis-generated spin-orbital expressions and target spin strings; differential value oracle on one spin-structured F_p model (spin-conserving Coulomb integrals, antisymmetrised V, spin-conserving amplitudes)",
+    "Generated-input search: integrate_spin / transform_to_spatial_orbitals (expand_eri on/off, restricted on/off) for sampled target spin blocks and generated target orders; value of the output on spatial orbitals == value of the "
+    "input on the spin orbitals of the requested spins; restricted case on models whose tensors depend on spatial labels only; non-reported blocks of allowed_spin_blocks must vanish.",
+    "Trusted: spin-structured F_p model (V built from (pq|rs) with spin conservation; symmetry asserted in the self test). Tensors without known spin blocks are modelled with all blocks non-zero.")
+
 NOT_YET = "check not built yet in this round (planned, see DESIGN.md)"
 
 def main():
